@@ -111,40 +111,49 @@ def read_name(items, off, limit=None, content=True):
     return tuple(labels), end
 
 
-def _fields(items, rtype, off, end):
+def _fields(items, rtype, off, end, lenient=False):
+    """lenient: a field that cannot be read ends the list with ("error", fieldname, reason) instead of
+    raising, so that a caller can say *which* field of a damaged RDATA went wrong"""
     lay = LAYOUT.get(rtype)
     if lay is None:
         return (("raw", "rdata", list(items[off:end])),)
     out = []
     pos = off
-    for spec in lay:
-        kind, fname = spec[0], spec[1]
-        if kind == "name":
-            labels, pos = read_name(items, pos, end)
-            out.append(("name", fname, labels))
-        elif kind == "raw":
-            n = spec[2]
-            if pos + n > end:
-                raise RefError(f"RDATA too short for {fname}")
-            out.append(("raw", fname, list(items[pos:pos + n])))
-            pos += n
-        elif kind == "cstr":
-            if pos >= end:
-                raise RefError(f"RDATA too short for {fname}")
-            n = int(items[pos])
-            if pos + 1 + n > end:
-                raise RefError(f"character-string {fname} runs past RDATA")
-            out.append(("raw", fname, list(items[pos:pos + 1 + n])))
-            pos += 1 + n
-        else:  # rest
-            out.append(("raw", fname, list(items[pos:end])))
-            pos = end
-    if pos != end:
-        raise RefError("RDATA length does not match its layout")
+    fname = "rdata"
+    try:
+        for spec in lay:
+            kind, fname = spec[0], spec[1]
+            if kind == "name":
+                labels, pos = read_name(items, pos, end)
+                out.append(("name", fname, labels))
+            elif kind == "raw":
+                n = spec[2]
+                if pos + n > end:
+                    raise RefError(f"RDATA too short for {fname}")
+                out.append(("raw", fname, list(items[pos:pos + n])))
+                pos += n
+            elif kind == "cstr":
+                if pos >= end:
+                    raise RefError(f"RDATA too short for {fname}")
+                n = int(items[pos])
+                if pos + 1 + n > end:
+                    raise RefError(f"character-string {fname} runs past RDATA")
+                out.append(("raw", fname, list(items[pos:pos + 1 + n])))
+                pos += 1 + n
+            else:  # rest
+                out.append(("raw", fname, list(items[pos:end])))
+                pos = end
+        fname = "length"
+        if pos != end:
+            raise RefError("RDATA length does not match its layout")
+    except RefError as e:
+        if not lenient:
+            raise
+        out.append(("error", fname, str(e)))
     return tuple(out)
 
 
-def decode(buf, *, typed=True, exact=True) -> Msg:
+def decode(buf, *, typed=True, exact=True, lenient=False) -> Msg:
     """typed=False: every RDATA is kept opaque (used when only header/questions/owners matter)"""
     items = list(buf)
     if len(items) < 12:
@@ -167,7 +176,7 @@ def decode(buf, *, typed=True, exact=True) -> Msg:
             pos += 10
             if pos + rdlen > len(items):
                 raise RefError("RDATA runs past the end of the message")
-            f = _fields(items, rtype, pos, pos + rdlen) if typed else (("raw", "rdata", list(items[pos:pos + rdlen])),)
+            f = _fields(items, rtype, pos, pos + rdlen, lenient) if typed else (("raw", "rdata", list(items[pos:pos + rdlen])),)
             sec.append(RR(name, rtype, cls, ttl, f))
             pos += rdlen
         secs.append(sec)
@@ -184,11 +193,12 @@ def split_tcp(stream):
     out = []
     pos = 0
     while len(items) - pos >= 2:
-        n = int((items[pos] << 8) | items[pos + 1])
+        n = (items[pos] << 8) | items[pos + 1]
         if n == 0:
             return out, items[pos:], "zero-length"
         if len(items) - pos - 2 < n:
             break
+        n = int(n)  # (bounded by the octets present: decided by comparison first, so symbolic lengths do not enumerate)
         out.append(items[pos + 2:pos + 2 + n])
         pos += 2 + n
     return out, items[pos:], None
